@@ -10,7 +10,8 @@ import (
 )
 
 // Scenario family "a reader that stops reading" (kind "stall"): one client opens a Pull stream, receives its seed
-// and stops calling Recv (busy, stuck, slow) while Updates keep coming from another client; a second stream, opened
+// and stops calling Recv (busy, stuck, slow) while Updates keep coming from another client (model-level writes where
+// the service has no Update RPC: sensors); a second stream, opened
 // after the stalled one, is read promptly. The property only owes stream messages to readers that keep up, but it
 // owes everything else to everybody, whatever one reader does:
 //
@@ -55,7 +56,7 @@ func runStallSession(t triple, sid sessionID, mon *lib.Monitor) (lines, verdicts
 	for k := 0; k < stallUpdates+sid.Steps && !s.failed; k++ {
 		s.step = k
 		t0 := time.Now()
-		s.doUpdate()
+		s.write()
 		if d := time.Since(t0); d > time.Second {
 			mon.Count("stall-update-waited-for-reader")
 			s.trace = append(s.trace, stepDesc{s.step, "(the Update above took " + d.Round(100*time.Millisecond).String() + " while a reader was stalled)", ""})
@@ -110,7 +111,7 @@ func runStallSession(t triple, sid sessionID, mon *lib.Monitor) (lines, verdicts
 	s.obs("quiesce", v)
 	// from here on the resumed reader keeps up like everybody else
 	for n := 0; n < 2 && !s.failed; n++ {
-		s.doUpdate()
+		s.write()
 	}
 	if !s.failed {
 		s.drain(true)
